@@ -164,7 +164,13 @@ func New(sc *Scenario, k *kernel.Kernel) (*World, error) {
 			writeFile(filepath.Join(cd, fmt.Sprintf("pwm%d_enable", n)), "2")
 		}
 		for _, n := range c.ExtraTemps {
-			writeFile(filepath.Join(cd, fmt.Sprintf("temp%d_input", n)), "33000")
+			content := "33000"
+			for _, b := range c.BadTemps {
+				if b == n {
+					content = ""
+				}
+			}
+			writeFile(filepath.Join(cd, fmt.Sprintf("temp%d_input", n)), content)
 		}
 		order = append(order, c.Dir)
 	}
